@@ -26,8 +26,8 @@ S = {
  'C10-2': ('C10', 'plug() drops the exact-name-first lookup (single semver-compatible find)', 'socket importing two versions of one track, exact one not first', 'C10: VIOLATION plug-wiring, replayed natively (contract of are_semver_compatible corrected: identical names are compatible)'),
  'C16-1': ('C16', 'new_expr collects the expected argument names into a HashSet', 'a spread argument that satisfies two or more imports', 'C16 (spread order part): VIOLATION spread-argument-order, confirmed in fresh processes'),
  'C16-2': ('C16', 'CompositionGraph::imports() lists explicit imports from the HashMap', 'two or more explicit imports', 'C16 (imports() part): VIOLATION imports-listing-order, confirmed in fresh processes'),
- 'C02-1': ('C02', 'encoder caches embedded components by package name instead of package id', 'two versions of one package instantiated in one composition', None),
- 'C02-2': ('C02', 'encode_names records core-module names in the component name map', 'a named node of core-module kind', None),
+ 'C02-1': ('C02', 'encoder caches embedded components by package name instead of package id', 'two versions of one package instantiated in one composition', 'C02 (two instantiations in a row): VIOLATION instantiation-wrong-package, confirmed natively (the encoded component embeds one component for two versions)'),
+ 'C02-2': ('C02', 'encode_names records core-module names in the component name map', 'a named node of core-module kind', 'C02 (encode_names): VIOLATION names-wrong-section, confirmed natively (name section read back with wasmparser)'),
  'C08-1': ('C08', 'TypeConverter::find_owner follows only one alias hop', 'a `use` chain of three interfaces', None),
  'C08-2': ('C08', 'TypeEncoder::use_aliases no longer clears the per-scope alias table', 'two interfaces in one scope with equally named, different types', None),
  'C04-1': ('C04', 'inferred_instantiation_arg tries the last-segment match before the bound import/export name', 'local name differs from the bound name and a unique import ends in /<local>', 'C04 (inferred argument precedence): VIOLATION inferred-arg-precedence, two battery documents replayed through the real resolver'),
